@@ -422,15 +422,47 @@ harness! {
     /// kind=bounded tier=quick bound="orig: valid UTF-8 string<=4 bytes, parser over every sub-slice on char boundaries; pattern: any char; base any u32 with base+len<=u32::MAX"
     #[kani::unwind(7)]
     #[kani::stub(konst_kernel::string::non_char_boundary_panic, crate::hlib::stub_non_char_boundary_panic)]
-    fn c13_trim_matches_one_sided_char(s) {
+    fn c13_trim_start_matches_char(s) {
         let bs = BStr::<4>::any(s);
         let orig = bs.as_str();
         let (c1, p) = any_state(s, orig);
         let c = &c1;
-        let which = s.upto(1);
+        let which = 0;
         let pat = s.char();
         let r = fam_trim_matches_one_sided(s, c, p, which, pat);
         cov!(s, match r { Some(q) => q.start_offset() > p.start_offset() && q.remainder().len() > 0, None => false }, "C13.cover.trim_start_matches_moved_char");
+    }
+}
+
+harness! {
+    /// kind=bounded tier=quick bound="orig: valid UTF-8 string<=4 bytes, parser over every sub-slice on char boundaries; pattern: any valid UTF-8 &str<=2 bytes; base any u32 with base+len<=u32::MAX"
+    #[kani::unwind(7)]
+    #[kani::stub(konst_kernel::string::non_char_boundary_panic, crate::hlib::stub_non_char_boundary_panic)]
+    fn c13_trim_start_matches_str(s) {
+        let bs = BStr::<4>::any(s);
+        let orig = bs.as_str();
+        let (c1, p) = any_state(s, orig);
+        let c = &c1;
+        let which = 0;
+        let ps = BStr::<2>::any(s);
+        let pat = ps.as_str();
+        let r = fam_trim_matches_one_sided(s, c, p, which, pat);
+        cov!(s, match r { Some(q) => q.start_offset() > p.start_offset() && q.remainder().len() > 0, None => false }, "C13.cover.trim_start_matches_moved_str");
+    }
+}
+
+harness! {
+    /// kind=bounded tier=quick bound="orig: valid UTF-8 string<=4 bytes, parser over every sub-slice on char boundaries; pattern: any char; base any u32 with base+len<=u32::MAX"
+    #[kani::unwind(7)]
+    #[kani::stub(konst_kernel::string::non_char_boundary_panic, crate::hlib::stub_non_char_boundary_panic)]
+    fn c13_trim_end_matches_char(s) {
+        let bs = BStr::<4>::any(s);
+        let orig = bs.as_str();
+        let (c1, p) = any_state(s, orig);
+        let c = &c1;
+        let which = 1;
+        let pat = s.char();
+        let r = fam_trim_matches_one_sided(s, c, p, which, pat);
         cov!(s, match r { Some(q) => q.end_offset() < p.end_offset() && q.remainder().len() > 0 && c.base > 0, None => false }, "C13.cover.trim_end_matches_cut_char");
     }
 }
@@ -439,16 +471,15 @@ harness! {
     /// kind=bounded tier=quick bound="orig: valid UTF-8 string<=4 bytes, parser over every sub-slice on char boundaries; pattern: any valid UTF-8 &str<=2 bytes; base any u32 with base+len<=u32::MAX"
     #[kani::unwind(7)]
     #[kani::stub(konst_kernel::string::non_char_boundary_panic, crate::hlib::stub_non_char_boundary_panic)]
-    fn c13_trim_matches_one_sided_str(s) {
+    fn c13_trim_end_matches_str(s) {
         let bs = BStr::<4>::any(s);
         let orig = bs.as_str();
         let (c1, p) = any_state(s, orig);
         let c = &c1;
-        let which = s.upto(1);
+        let which = 1;
         let ps = BStr::<2>::any(s);
         let pat = ps.as_str();
         let r = fam_trim_matches_one_sided(s, c, p, which, pat);
-        cov!(s, match r { Some(q) => q.start_offset() > p.start_offset() && q.remainder().len() > 0, None => false }, "C13.cover.trim_start_matches_moved_str");
         cov!(s, match r { Some(q) => q.end_offset() < p.end_offset() && q.remainder().len() > 0 && c.base > 0, None => false }, "C13.cover.trim_end_matches_cut_str");
     }
 }
@@ -542,7 +573,7 @@ harness! {
         let c = &c1;
         let flagged = s.bool();
         let p = if flagged { exhausted_at(s, c) } else { p };
-        let which = s.upto(2);
+        let which = s.upto(1);
         let pat = s.char();
         let r = fam_split(s, c, p, which, pat);
         cov!(s, match r { Some(q) => q.start_offset() > p.start_offset() && q.remainder().len() > 0, None => false }, "C13.cover.split_moved_char");
@@ -553,17 +584,17 @@ harness! {
 }
 
 harness! {
-    /// kind=bounded tier=quick bound="orig: valid UTF-8 string<=5 bytes, parser over every sub-slice on char boundaries, or an exhausted split (flag set, empty remainder at any char boundary); pattern: any valid UTF-8 &str<=2 bytes; base any u32 with base+len<=u32::MAX"
-    #[kani::unwind(12)]
+    /// kind=bounded tier=quick bound="orig: valid UTF-8 string<=4 bytes, parser over every sub-slice on char boundaries, or an exhausted split (flag set, empty remainder at any char boundary); pattern: any valid UTF-8 &str<=2 bytes; base any u32 with base+len<=u32::MAX"
+    #[kani::unwind(10)]
     #[kani::stub(konst_kernel::string::non_char_boundary_panic, crate::hlib::stub_non_char_boundary_panic)]
     fn c13_split_str(s) {
-        let bs = BStr::<5>::any(s);
+        let bs = BStr::<4>::any(s);
         let orig = bs.as_str();
         let (c1, p) = any_state(s, orig);
         let c = &c1;
         let flagged = s.bool();
         let p = if flagged { exhausted_at(s, c) } else { p };
-        let which = s.upto(2);
+        let which = s.upto(1);
         let ps = BStr::<2>::any(s);
         let pat = ps.as_str();
         let r = fam_split(s, c, p, which, pat);
@@ -571,6 +602,45 @@ harness! {
         cov!(s, match r { Some(q) => q.end_offset() < p.end_offset() && q.remainder().len() > 0 && c.base > 0, None => false }, "C13.cover.rsplit_cut_str");
         cov!(s, r.is_none() && flagged && which == 0 && p.start_offset() > c.base && c.base > 0, "C13.cover.split_exhausted_error_str");
         cov!(s, r.is_none() && flagged && which == 1 && c.base > 0 && p.end_offset() < c.base + c.ob.len(), "C13.cover.rsplit_exhausted_error_with_base_str");
+    }
+}
+
+harness! {
+    /// kind=bounded tier=quick bound="orig: valid UTF-8 string<=4 bytes, parser over every sub-slice on char boundaries, or an exhausted split (flag set, empty remainder at any char boundary); pattern: any char; base any u32 with base+len<=u32::MAX"
+    #[kani::unwind(12)]
+    #[kani::stub(konst_kernel::string::non_char_boundary_panic, crate::hlib::stub_non_char_boundary_panic)]
+    fn c13_split_keep_char(s) {
+        let bs = BStr::<4>::any(s);
+        let orig = bs.as_str();
+        let (c1, p) = any_state(s, orig);
+        let c = &c1;
+        let flagged = s.bool();
+        let p = if flagged { exhausted_at(s, c) } else { p };
+        let which = 2;
+        let pat = s.char();
+        let r = fam_split(s, c, p, which, pat);
+        cov!(s, match r { Some(q) => q.start_offset() > p.start_offset() && q.remainder().len() > 0, None => false }, "C13.cover.split_keep_moved_char");
+        cov!(s, r.is_none() && flagged && p.start_offset() > c.base && c.base > 0, "C13.cover.split_keep_exhausted_error_char");
+    }
+}
+
+harness! {
+    /// kind=bounded tier=quick bound="orig: valid UTF-8 string<=4 bytes, parser over every sub-slice on char boundaries, or an exhausted split (flag set, empty remainder at any char boundary); pattern: any valid UTF-8 &str<=2 bytes; base any u32 with base+len<=u32::MAX"
+    #[kani::unwind(10)]
+    #[kani::stub(konst_kernel::string::non_char_boundary_panic, crate::hlib::stub_non_char_boundary_panic)]
+    fn c13_split_keep_str(s) {
+        let bs = BStr::<4>::any(s);
+        let orig = bs.as_str();
+        let (c1, p) = any_state(s, orig);
+        let c = &c1;
+        let flagged = s.bool();
+        let p = if flagged { exhausted_at(s, c) } else { p };
+        let which = 2;
+        let ps = BStr::<2>::any(s);
+        let pat = ps.as_str();
+        let r = fam_split(s, c, p, which, pat);
+        cov!(s, match r { Some(q) => q.start_offset() > p.start_offset() && q.remainder().len() > 0, None => false }, "C13.cover.split_keep_moved_str");
+        cov!(s, r.is_none() && flagged && p.start_offset() > c.base && c.base > 0, "C13.cover.split_keep_exhausted_error_str");
     }
 }
 
@@ -596,11 +666,11 @@ harness! {
 }
 
 harness! {
-    /// kind=bounded tier=quick bound="orig: valid UTF-8 string<=5 bytes, parser over every sub-slice on char boundaries, or an exhausted split (flag set, empty remainder at any char boundary); pattern: any valid UTF-8 &str<=2 bytes; base any u32 with base+len<=u32::MAX"
-    #[kani::unwind(12)]
+    /// kind=bounded tier=quick bound="orig: valid UTF-8 string<=4 bytes, parser over every sub-slice on char boundaries, or an exhausted split (flag set, empty remainder at any char boundary); pattern: any valid UTF-8 &str<=2 bytes; base any u32 with base+len<=u32::MAX"
+    #[kani::unwind(10)]
     #[kani::stub(konst_kernel::string::non_char_boundary_panic, crate::hlib::stub_non_char_boundary_panic)]
     fn c13_split_terminator_str(s) {
-        let bs = BStr::<5>::any(s);
+        let bs = BStr::<4>::any(s);
         let orig = bs.as_str();
         let (c1, p) = any_state(s, orig);
         let c = &c1;
@@ -650,6 +720,189 @@ harness! {
         cov!(s, which == 1 && match r { Some(q) => q.start_offset() > p.start_offset() && q.remainder().len() > 0, None => false }, "C13.cover.parse_i16_moved");
         cov!(s, which == 2 && match r { Some(q) => q.start_offset() == p.start_offset() + 4 && p.start_offset() > c.base, None => false }, "C13.cover.parse_bool_true_inside");
         cov!(s, r.is_none() && p.start_offset() > c.base && p.remainder().len() > 0, "C13.cover.parse_error_inside");
+    }
+}
+
+harness! {
+    /// kind=bounded tier=thorough bound="orig: valid UTF-8 string<=6 bytes, parser over every sub-slice on char boundaries; pattern: any char; base any u32 with base+len<=u32::MAX"
+    #[kani::unwind(9)]
+    #[kani::stub(konst_kernel::string::non_char_boundary_panic, crate::hlib::stub_non_char_boundary_panic)]
+    fn c13_trim_matches_one_sided_big_char(s) {
+        let bs = BStr::<6>::any(s);
+        let orig = bs.as_str();
+        let (c1, p) = any_state(s, orig);
+        let c = &c1;
+        let which = s.upto(1);
+        let pat = s.char();
+        let r = fam_trim_matches_one_sided(s, c, p, which, pat);
+        cov!(s, match r { Some(q) => q.start_offset() > p.start_offset() && q.remainder().len() > 0, None => false }, "C13.cover.trim_start_matches_moved_char_big");
+        cov!(s, match r { Some(q) => q.end_offset() < p.end_offset() && q.remainder().len() > 0 && c.base > 0, None => false }, "C13.cover.trim_end_matches_cut_char_big");
+    }
+}
+
+harness! {
+    /// kind=bounded tier=thorough bound="orig: valid UTF-8 string<=6 bytes, parser over every sub-slice on char boundaries; pattern: any valid UTF-8 &str<=2 bytes; base any u32 with base+len<=u32::MAX"
+    #[kani::unwind(9)]
+    #[kani::stub(konst_kernel::string::non_char_boundary_panic, crate::hlib::stub_non_char_boundary_panic)]
+    fn c13_trim_matches_one_sided_big_str(s) {
+        let bs = BStr::<6>::any(s);
+        let orig = bs.as_str();
+        let (c1, p) = any_state(s, orig);
+        let c = &c1;
+        let which = s.upto(1);
+        let ps = BStr::<2>::any(s);
+        let pat = ps.as_str();
+        let r = fam_trim_matches_one_sided(s, c, p, which, pat);
+        cov!(s, match r { Some(q) => q.start_offset() > p.start_offset() && q.remainder().len() > 0, None => false }, "C13.cover.trim_start_matches_moved_str_big");
+        cov!(s, match r { Some(q) => q.end_offset() < p.end_offset() && q.remainder().len() > 0 && c.base > 0, None => false }, "C13.cover.trim_end_matches_cut_str_big");
+    }
+}
+
+harness! {
+    /// kind=bounded tier=thorough bound="orig: valid UTF-8 string<=7 bytes, parser over every sub-slice on char boundaries; pattern: any char; base any u32 with base+len<=u32::MAX"
+    #[kani::unwind(11)]
+    #[kani::stub(konst_kernel::string::non_char_boundary_panic, crate::hlib::stub_non_char_boundary_panic)]
+    fn c13_strip_big_char(s) {
+        let bs = BStr::<7>::any(s);
+        let orig = bs.as_str();
+        let (c1, p) = any_state(s, orig);
+        let c = &c1;
+        let which = s.upto(1);
+        let pat = s.char();
+        let r = fam_strip(s, c, p, which, pat);
+        cov!(s, match r { Some(q) => q.start_offset() > p.start_offset() && q.remainder().len() > 0, None => false }, "C13.cover.strip_prefix_moved_char_big");
+        cov!(s, match r { Some(q) => q.end_offset() < p.end_offset() && q.remainder().len() > 0 && c.base > 0, None => false }, "C13.cover.strip_suffix_cut_char_big");
+    }
+}
+
+harness! {
+    /// kind=bounded tier=thorough bound="orig: valid UTF-8 string<=7 bytes, parser over every sub-slice on char boundaries; pattern: any valid UTF-8 &str<=2 bytes; base any u32 with base+len<=u32::MAX"
+    #[kani::unwind(11)]
+    #[kani::stub(konst_kernel::string::non_char_boundary_panic, crate::hlib::stub_non_char_boundary_panic)]
+    fn c13_strip_big_str(s) {
+        let bs = BStr::<7>::any(s);
+        let orig = bs.as_str();
+        let (c1, p) = any_state(s, orig);
+        let c = &c1;
+        let which = s.upto(1);
+        let ps = BStr::<2>::any(s);
+        let pat = ps.as_str();
+        let r = fam_strip(s, c, p, which, pat);
+        cov!(s, match r { Some(q) => q.start_offset() > p.start_offset() && q.remainder().len() > 0, None => false }, "C13.cover.strip_prefix_moved_str_big");
+        cov!(s, match r { Some(q) => q.end_offset() < p.end_offset() && q.remainder().len() > 0 && c.base > 0, None => false }, "C13.cover.strip_suffix_cut_str_big");
+    }
+}
+
+harness! {
+    /// kind=bounded tier=thorough bound="orig: valid UTF-8 string<=5 bytes, parser over every sub-slice on char boundaries; pattern: any char; base any u32 with base+len<=u32::MAX"
+    #[kani::unwind(17)]
+    #[kani::stub(konst_kernel::string::non_char_boundary_panic, crate::hlib::stub_non_char_boundary_panic)]
+    fn c13_find_skip_big_char(s) {
+        let bs = BStr::<5>::any(s);
+        let orig = bs.as_str();
+        let (c1, p) = any_state(s, orig);
+        let c = &c1;
+        let which = s.upto(1);
+        let pat = s.char();
+        let r = fam_find_skip(s, c, p, which, pat);
+        cov!(s, match r { Some(q) => q.start_offset() > p.start_offset() && q.remainder().len() > 0, None => false }, "C13.cover.find_skip_moved_char_big");
+        cov!(s, match r { Some(q) => q.end_offset() < p.end_offset() && q.remainder().len() > 0 && c.base > 0, None => false }, "C13.cover.rfind_skip_cut_char_big");
+    }
+}
+
+harness! {
+    /// kind=bounded tier=thorough bound="orig: valid UTF-8 string<=6 bytes, parser over every sub-slice on char boundaries; pattern: any valid UTF-8 &str<=2 bytes; base any u32 with base+len<=u32::MAX"
+    #[kani::unwind(15)]
+    #[kani::stub(konst_kernel::string::non_char_boundary_panic, crate::hlib::stub_non_char_boundary_panic)]
+    fn c13_find_skip_big_str(s) {
+        let bs = BStr::<6>::any(s);
+        let orig = bs.as_str();
+        let (c1, p) = any_state(s, orig);
+        let c = &c1;
+        let which = s.upto(1);
+        let ps = BStr::<2>::any(s);
+        let pat = ps.as_str();
+        let r = fam_find_skip(s, c, p, which, pat);
+        cov!(s, match r { Some(q) => q.start_offset() > p.start_offset() && q.remainder().len() > 0, None => false }, "C13.cover.find_skip_moved_str_big");
+        cov!(s, match r { Some(q) => q.end_offset() < p.end_offset() && q.remainder().len() > 0 && c.base > 0, None => false }, "C13.cover.rfind_skip_cut_str_big");
+    }
+}
+
+harness! {
+    /// kind=bounded tier=thorough bound="orig: valid UTF-8 string<=5 bytes, parser over every sub-slice on char boundaries, or an exhausted split (flag set, empty remainder at any char boundary); pattern: any char; base any u32 with base+len<=u32::MAX"
+    #[kani::unwind(17)]
+    #[kani::stub(konst_kernel::string::non_char_boundary_panic, crate::hlib::stub_non_char_boundary_panic)]
+    fn c13_split_big_char(s) {
+        let bs = BStr::<5>::any(s);
+        let orig = bs.as_str();
+        let (c1, p) = any_state(s, orig);
+        let c = &c1;
+        let flagged = s.bool();
+        let p = if flagged { exhausted_at(s, c) } else { p };
+        let which = s.upto(2);
+        let pat = s.char();
+        let r = fam_split(s, c, p, which, pat);
+        cov!(s, match r { Some(q) => q.start_offset() > p.start_offset() && q.remainder().len() > 0, None => false }, "C13.cover.split_moved_char_big");
+        cov!(s, match r { Some(q) => q.end_offset() < p.end_offset() && q.remainder().len() > 0 && c.base > 0, None => false }, "C13.cover.rsplit_cut_char_big");
+    }
+}
+
+harness! {
+    /// kind=bounded tier=thorough bound="orig: valid UTF-8 string<=6 bytes, parser over every sub-slice on char boundaries, or an exhausted split (flag set, empty remainder at any char boundary); pattern: any valid UTF-8 &str<=2 bytes; base any u32 with base+len<=u32::MAX"
+    #[kani::unwind(15)]
+    #[kani::stub(konst_kernel::string::non_char_boundary_panic, crate::hlib::stub_non_char_boundary_panic)]
+    fn c13_split_big_str(s) {
+        let bs = BStr::<6>::any(s);
+        let orig = bs.as_str();
+        let (c1, p) = any_state(s, orig);
+        let c = &c1;
+        let flagged = s.bool();
+        let p = if flagged { exhausted_at(s, c) } else { p };
+        let which = s.upto(2);
+        let ps = BStr::<2>::any(s);
+        let pat = ps.as_str();
+        let r = fam_split(s, c, p, which, pat);
+        cov!(s, match r { Some(q) => q.start_offset() > p.start_offset() && q.remainder().len() > 0, None => false }, "C13.cover.split_moved_str_big");
+        cov!(s, match r { Some(q) => q.end_offset() < p.end_offset() && q.remainder().len() > 0 && c.base > 0, None => false }, "C13.cover.rsplit_cut_str_big");
+    }
+}
+
+harness! {
+    /// kind=bounded tier=thorough bound="orig: valid UTF-8 string<=5 bytes, parser over every sub-slice on char boundaries, or an exhausted split (flag set, empty remainder at any char boundary); pattern: any char; base any u32 with base+len<=u32::MAX"
+    #[kani::unwind(17)]
+    #[kani::stub(konst_kernel::string::non_char_boundary_panic, crate::hlib::stub_non_char_boundary_panic)]
+    fn c13_split_terminator_big_char(s) {
+        let bs = BStr::<5>::any(s);
+        let orig = bs.as_str();
+        let (c1, p) = any_state(s, orig);
+        let c = &c1;
+        let flagged = s.bool();
+        let p = if flagged { exhausted_at(s, c) } else { p };
+        let which = s.upto(1);
+        let pat = s.char();
+        let r = fam_split_terminator(s, c, p, which, pat);
+        cov!(s, match r { Some(q) => q.start_offset() > p.start_offset() && q.remainder().len() > 0, None => false }, "C13.cover.split_terminator_moved_char_big");
+        cov!(s, match r { Some(q) => q.end_offset() < p.end_offset() && q.remainder().len() > 0 && c.base > 0, None => false }, "C13.cover.rsplit_terminator_cut_char_big");
+    }
+}
+
+harness! {
+    /// kind=bounded tier=thorough bound="orig: valid UTF-8 string<=6 bytes, parser over every sub-slice on char boundaries, or an exhausted split (flag set, empty remainder at any char boundary); pattern: any valid UTF-8 &str<=2 bytes; base any u32 with base+len<=u32::MAX"
+    #[kani::unwind(15)]
+    #[kani::stub(konst_kernel::string::non_char_boundary_panic, crate::hlib::stub_non_char_boundary_panic)]
+    fn c13_split_terminator_big_str(s) {
+        let bs = BStr::<6>::any(s);
+        let orig = bs.as_str();
+        let (c1, p) = any_state(s, orig);
+        let c = &c1;
+        let flagged = s.bool();
+        let p = if flagged { exhausted_at(s, c) } else { p };
+        let which = s.upto(1);
+        let ps = BStr::<2>::any(s);
+        let pat = ps.as_str();
+        let r = fam_split_terminator(s, c, p, which, pat);
+        cov!(s, match r { Some(q) => q.start_offset() > p.start_offset() && q.remainder().len() > 0, None => false }, "C13.cover.split_terminator_moved_str_big");
+        cov!(s, match r { Some(q) => q.end_offset() < p.end_offset() && q.remainder().len() > 0 && c.base > 0, None => false }, "C13.cover.rsplit_terminator_cut_str_big");
     }
 }
 
